@@ -20,6 +20,7 @@ FAMILIES = [
     ("Sat2", "any", ["direct", "earley", "cky"]),
     ("Sat3", "leftcycle", ["direct", "earley", "cky"]),
     ("Bool", "leftcycle", ["direct", "earley", "cky"]),
+    ("Sat3", "ring", ["direct", "earley", "cky"]),
 ]
 
 
